@@ -27,7 +27,7 @@ PROOF_FILES = ["theories/Props/C03.v", "theories/Proofs/SupportA.v", "theories/P
                "theories/Checker/ShapesCert.v", "theories/Checker/ShapesBridge.v", "theories/Proofs/MeshClimbGen.v",
                "theories/Checker/ShapesMeshCone.v"]
 FUEL = 100000
-DIR_CLASSES = ["random", "random", "axis", "sign", "sign", "pow2", "pow2", "shape_axis", "shape_orth"]
+DIR_CLASSES = ["random", "random", "axis", "sign", "sign", "pow2", "pow2", "shape_axis", "shape_orth", "near_axis", "near_orth"]
 EPS10 = Fr(10) / Fr(2 ** 52)
 CERTS_PER_GROUP = 4   # answers per case and observable submitted to the Coq checker (feature directions first)
 MESH_CONE_BUDGET = dict(quick=12, thorough=80)   # meshes per run whose cone certificate is built and checked
@@ -158,7 +158,8 @@ def gen_case(rng, kind, stream):
         # repeated and opposite queries exercise the cached start vertex
         dirs[1] = dict(cls="repeat", d=list(dirs[0]["d"]))
         dirs[2] = dict(cls="opposite", d=[-x for x in dirs[0]["d"]])
-    return dict(shape=sh, margin=margin, dirs=[x["d"] for x in dirs], dir_cls=[x["cls"] for x in dirs])
+    return dict(shape=sh, margin=margin, dirs=[x["d"] for x in dirs], dir_cls=[x["cls"] for x in dirs],
+                shared_dir_buffer=rng.random() < 0.5)
 
 
 def face_normal_case(rng):
@@ -639,7 +640,8 @@ def run(tier, seed, replay=None):
                      "up to 30 queries on ONE object, each repeated on a fresh object) from classes random / axis-aligned / "
                      "sign-boundary (components in {0,+-1,+-1e-300,+-1e-9}) / powers of two incl. 2^-50, 2^-48 (straddling the "
                      "10*eps threshold of the hill climb) / parallel to a shape axis / orthogonal to or mixing shape axes / "
-                     "cone: around the rim-apex switch line; exact hull / box / mesh cases additionally get all 26 sign directions; distinct_nontrivial counts distinct (case hash, direction index) "
+                     "almost parallel / almost orthogonal to a shape axis (1e-3..1e-9) / cone: around the rim-apex switch line; in half of the cases all "
+                     "queries of the case are passed in ONE direction array that is overwritten in place between the calls; exact hull / box / mesh cases additionally get all 26 sign directions; distinct_nontrivial counts distinct (case hash, direction index) "
                      "pairs whose direction is non-zero, whose answer passed the oracle and for which the shape has non-zero "
                      "extent along d")
     R.assumptions += [
